@@ -582,7 +582,7 @@ class FileProcessTensor(BaseProcessTensor):
         name = self._f.attrs["name"]
         description = self._f.attrs["description"]
 
-        if self._f.attrs["writing"] is True:
+        if self._f.attrs["writing"]:
             warnings.warn(
                 "File was closed during writing process and hence " \
                 "may be corrupt.", UserWarning)
@@ -664,8 +664,8 @@ class FileProcessTensor(BaseProcessTensor):
 
     def close(self):
         """Close the HDF5 file."""
-        if self._f is not None:
-            if self._f.attrs["writing"] is True:
+        if self._f is not None and self._f:
+            if self._write and self._f.attrs["writing"]:
                 self._f.attrs["writing"] = False
             self._f.close()
 
